@@ -63,7 +63,7 @@ ASSUMPTIONS = ['numpy slicing and numpy.ma.concatenate are the reference for '
                'pieces have >= 1 element along the stacked dimension',
                'all stacked files share one schema (names, dims, dtypes, '
                'attributes)']
-BUDGET = {'quick': dict(examples=4800, max_s=240),
+BUDGET = {'quick': dict(examples=7200, max_s=240),
           'thorough': dict(examples=40000, max_s=1100)}
 
 FOPTS = dict(max_len=6, max_dims=5, max_vars=5, attrs=True, masked=True,
